@@ -97,6 +97,7 @@ func guard(st ...m.N) m.N {
 }
 
 func pickS(r *h.Rng, xs []string) string { return xs[r.Intn(len(xs))] }
+func pickN(r *h.Rng, xs []m.N) m.N       { return xs[r.Intn(len(xs))] }
 
 var keyU = []string{"a", "b", "c", "d", "e"}
 
@@ -1725,6 +1726,117 @@ func scLateGlobal(r *h.Rng) *prog {
 	return p
 }
 
+// a program that ends with an uncaught exception: every kind of thrown value must come back as an error that
+// corresponds to the value (never as a normal completion), from global code, a function, eval code, a finally block
+func scUncaught(r *h.Rng) *prog {
+	p := &prog{}
+	p.v("e", "o", "k")
+	var val m.N
+	var pre []m.N
+	switch r.Intn(13) {
+	case 0:
+		val = m.Num(r.Intn(50))
+	case 1:
+		val = m.Str(pickS(r, []string{"boom", "x1", "oops"}))
+	case 2:
+		val = pickN(r, []m.N{m.Bool(true), m.Bool(false)})
+	case 3:
+		val = m.Null()
+	case 4:
+		val = m.Undef()
+	case 5:
+		val = m.Obj(m.Prop{K: "a", V: m.Num(1)})
+	case 6:
+		val = m.Fn{Body: []m.N{m.Ret(m.Num(1))}}.Expr()
+	case 7: // an Error instance made by the engine, caught and thrown again
+		pre = []m.N{m.Try([]m.N{m.X(m.Get(m.Null(), "x"))}, "e", []m.N{m.X(m.Asg("o", m.Var("e")))}, nil, true, false)}
+		val = m.Var("o")
+	case 8: // the prototype object of such an instance: class Error, but not made by a constructor
+		pre = []m.N{m.Try([]m.N{m.X(pickN(r, []m.N{m.Get(m.Null(), "x"), m.Var("undeclared")}))}, "e", []m.N{m.X(m.Asg("o", m.ProtoOf(m.Var("e"))))}, nil, true, false)}
+		val = m.Var("o")
+	case 9: // an uncaught engine error itself
+		val = pickN(r, []m.N{m.Get(m.Undef(), "x"), m.Var("undeclared"), m.CallV("k")})
+	case 10:
+		val = m.Regex()
+	case 11: // an arguments object
+		p.decl("ga", m.Fn{Name: "ga", Body: []m.N{m.Ret(m.Var("arguments"))}})
+		val = m.CallV("ga", m.Num(1))
+	default: // the prototype of a plain object / of a function: Object.prototype, Function.prototype
+		val = m.ProtoOf(pickN(r, []m.N{m.Obj(), m.Fn{Body: []m.N{m.Ret0()}}.Expr()}))
+	}
+	thr := m.Throw(val)
+	p.add(lg(m.Str("start")))
+	p.add(pre...)
+	switch r.Intn(5) {
+	case 0:
+		p.add(thr)
+	case 1:
+		p.decl("f", m.Fn{Name: "f", Params: []string{"o"}, Body: []m.N{lg(m.Str("in")), thr}})
+		p.add(m.X(m.CallV("f", m.Var("o"))), lg(m.Str("notreached")))
+	case 2:
+		if r.Bool() {
+			p.add(m.X(m.EvalD(nil, nil, []m.N{thr})))
+		} else {
+			p.add(m.X(m.EvalI(nil, nil, []m.N{thr})))
+		}
+		p.add(lg(m.Str("notreached")))
+	case 3: // thrown again from a catch block, the finally block still runs
+		p.add(m.Try([]m.N{thr}, "e", []m.N{lg(m.Typeof(m.Var("e"))), m.Throw(m.Var("e"))}, []m.N{lg(m.Str("fin"))}, true, true))
+	default: // thrown by a finally block over a normal completion
+		p.add(m.Try([]m.N{lg(m.Str("body"))}, "", nil, []m.N{thr}, false, true))
+	}
+	p.add(lg(m.Str("notreached")))
+	return p
+}
+
+// literals that create a new object at EVERY evaluation (7.8.5 regular expression literals, 11.1.5 object
+// initialisers, 13 function expressions): a loop body, a function called twice, code run twice; identity, expando
+// properties and an assigned lastIndex must not carry over (the reused Script of the second route runs the program twice)
+func scFreshLiterals(r *h.Rng) *prog {
+	p := &prog{}
+	p.v("prev", "cur", "i", "a", "b")
+	kind := r.Intn(3)
+	lit := func() m.N {
+		switch kind {
+		case 0:
+			return m.Regex()
+		case 1:
+			return m.Obj(m.Prop{K: "lastIndex", V: m.Num(0)})
+		}
+		return m.Fn{Body: []m.N{m.Ret(m.Num(1))}}.Expr()
+	}
+	observe := func(x string) []m.N {
+		return []m.N{lg(m.Typeof(m.Get(m.Var(x), "tag"))), lg(m.Get(m.Var(x), "lastIndex")), lg(m.Typeof(m.Get(m.Var(x), "source")))}
+	}
+	mark := func(x string, k int) []m.N {
+		return []m.N{m.X(m.Set(m.Var(x), "tag", m.Num(k))), m.X(m.Set(m.Var(x), "lastIndex", m.Num(5+k))), m.X(m.Set(m.Var(x), "source", m.Str("changed"))),
+			lg(m.Get(m.Var(x), "lastIndex")), lg(m.Del(m.Var(x), "lastIndex"))}
+	}
+	switch r.Intn(3) {
+	case 0: // a loop body
+		body := []m.N{m.X(m.Asg("cur", lit())), lg(m.Seq(m.Var("cur"), m.Var("prev")))}
+		body = append(body, observe("cur")...)
+		body = append(body, mark("cur", 1)...)
+		body = append(body, m.X(m.Asg("prev", m.Var("cur"))), inc("i", 1))
+		p.add(m.X(m.Asg("i", m.Num(0))), m.While(m.Lt(m.Var("i"), m.Num(2+r.Intn(2))), body))
+	case 1: // a function called twice
+		p.decl("mk", m.Fn{Name: "mk", Body: []m.N{m.Ret(lit())}})
+		p.add(m.X(m.Asg("a", m.CallV("mk"))))
+		p.add(observe("a")...)
+		p.add(mark("a", 2)...)
+		p.add(m.X(m.Asg("b", m.CallV("mk"))), lg(m.Seq(m.Var("a"), m.Var("b"))))
+		p.add(observe("b")...)
+		p.add(observe("a")...)
+	default: // once per run: what the first run of a reused Script did must not show in the second
+		p.add(m.X(m.Asg("a", lit())))
+		p.add(observe("a")...)
+		p.add(mark("a", 3)...)
+		p.add(observe("a")...)
+	}
+	p.add(m.X(m.Asg("i", m.Num(0))), m.ForIn(false, "prev", lit(), inc("i", 1)), lg(m.Var("i")))
+	return p
+}
+
 func init() {
 	fnScenarios = append(fnScenarios, []fnScenario{
 		{"with-lookup", scWithLookup}, {"with-closure", scWithClosure}, {"with-this", scWithThis}, {"with-var", scWithVar},
@@ -1734,5 +1846,5 @@ func init() {
 		{"labels", scLabels}, {"dup-params", scDupParams}, {"order", scOrder},
 		{"label-capture", scLabelCapture}, {"eval-throw", scEvalThrow},
 		{"hoist-collide", scHoistCollide}, {"label-stale", scLabelStale}, {"host-reentry", scHostReentry},
-		{"bind-chain", scBindChain}, {"forin-init", scForInInit}, {"eval-delete", scEvalDelete}, {"args-define", scArgsDefine}, {"global-redeclare", scGlobalRedeclare}, {"cond-ref", scCondRef}, {"late-global", scLateGlobal}}...)
+		{"bind-chain", scBindChain}, {"forin-init", scForInInit}, {"eval-delete", scEvalDelete}, {"args-define", scArgsDefine}, {"global-redeclare", scGlobalRedeclare}, {"cond-ref", scCondRef}, {"late-global", scLateGlobal}, {"uncaught", scUncaught}, {"fresh-literals", scFreshLiterals}}...)
 }
